@@ -20,6 +20,14 @@
      `sweep autoIds`, `retry … now`): the theorems therefore hold for every retry strategy incl. `Retry::Timeout`;
    * BOLT12 pre-HTLC states (AwaitingInvoice / InvoiceReceived / StaticInvoiceReceived) are one coarse state
      `preHtlc ticksLeft`; `Legacy` (pre-0.0.102) and `AwaitingOffer` are not modelled;
+   * the life-cycle decisions (`mark_fulfilled`, `mark_abandoned`, `remove`, `insert`, `remaining_parts`, `is_fulfilled`,
+     `claim_htlc`, `finalize_claims`, `fail_htlc`, `abandon_payment`, `remove_stale_payments`, the final retain of
+     `check_retry_payments`, `insert_from_monitor_on_startup`) are NOT written here by hand: `stepP` / `abandonP` /
+     `removeSent` look every one of them up in the tables / tests of `Generated/OutboundSend.lean` (second half, translated
+     from the Rust text on every run) through `PState.variant`; `Proofs/OutboundPayRefine.lean` proves the result equal to
+     the hand-written transition function (`stepP_eq_H`).  Still hand-mirrored: `abandonNow` as used by `retry`/`retryR`
+     (the `abandon_with_entry!` macro of find_route_and_send_payment), `send`/`await`/`invoice`, `pendingFor` (the event
+     scan of remove_stale_payments; its three event kinds are checked by the translator);
    * `debug_assert!(false)` / `assert!` sites reached by an op (claim/fail of a pre-HTLC payment, finalize of a
      non-fulfilled one) are reported as `panic` with no other effect (the harness builds with debug assertions). -/
 import LdkModel.Generated.Consts
